@@ -403,7 +403,7 @@ pub fn run(run: &mut Run) {
          sweep: for every kind, every field, every enumerant / single flag bit / boundary integer / text shape with all other fields \
          zero, both size modes; (2) random full assignments from an entropy tape (proptest, shrinkable). Oracle: decode(reference \
          image) shows the expected rendering at every `sure` field's path; encode(decode(image)) == image byte for byte (non-ASCII \
-         text ranges compared through the reference codepage decoder). Non-trivial = some byte after the header is non-zero.",
+         text ranges compared through the reference codepage decoder). Further parts: every pair of leaf fields of a kind at each of their choices; 295 plain integer / time fields swept (8 and 16 bits completely, 32 bits at round values); every image also through the public BinRead / BinWrite entry points with readers that deliver and sinks that accept 1 / 3,2 / 7 bytes per call or fail half-way; sequences on two long-lived codecs; one text through several fields in a row against a fresh thread. Non-trivial = some byte after the header is non-zero.",
         s.packets.len()
     );
     run.assumptions = vec![
